@@ -334,7 +334,36 @@ def unit_splice(U):
                 p.pc, goal, {"t.strand": strand}, replay=lambda m: _replay_introns())
 
 
-UNITS = [("body", unit_body), ("introns", unit_introns), ("splice", unit_splice)]
+def unit_bounded_numeric(U):
+    """bounded: the attribute union of interfeatures / create_introns under numeric_sort=True, with values that are
+    numerically equal but textually different ('1' / '1.0' / '01'), numeric vs text order, and a non-numeric fallback"""
+    fails, cases = [], 0
+    pools = [(["1"], ["1.0"]), (["10", "9"], ["9.0"]), (["05", "5"], ["5"]), (["2", "x"], ["10"]), (["0.5"], ["0.50", "7e-1"]), (["3"], ["3"])]
+    for numeric in (True, False):
+        for a, b in pools:
+            cases += 1
+            f1 = F.Feature(seqid="c", featuretype="exon", start=1, end=10, strand="+", attributes={"ID": ["e1"], "n": list(a)})
+            f2 = F.Feature(seqid="c", featuretype="exon", start=20, end=30, strand="+", attributes={"ID": ["e2"], "n": list(b)})
+            db = native_db([f1, f2], [])
+            try:
+                got = [list(g.attributes["n"]) for g in db.interfeatures([f1, f2], numeric_sort=numeric)]
+            except Exception as ex:
+                fails.append({"case": {"numeric_sort": numeric, "values": [a, b]}, "expected": "no exception", "observed": repr(ex)})
+                continue
+            union = set(a) | set(b)
+            allnum = True
+            try:
+                [float(v) for v in union]
+            except ValueError:
+                allnum = False
+            exp = sorted(union, key=lambda v: (float(v), v)) if (numeric and allnum) else sorted(union)
+            if got != [exp]:
+                fails.append({"case": {"numeric_sort": numeric, "values": [a, b]}, "expected": [exp], "observed": got})
+    U.bounded_result("C15.bounded.numeric_union", "interfeature attributes are the duplicate-free union of both neighbours' values per key (numeric order under numeric_sort when all are numbers; no value lost to a numeric tie)",
+                     "%d value pools x numeric_sort on/off" % len(pools), cases, fails, distinct=cases)
+
+
+UNITS = [("body", unit_body), ("introns", unit_introns), ("splice", unit_splice), ("bounded.numeric", unit_bounded_numeric)]
 try:
     from standins import C15 as _S
     UNITS = UNITS + list(_S.UNITS)
